@@ -359,7 +359,9 @@ fn run_ticker_fault(c: &TickerFault) -> CaseResult {
     pb.set_style(indicatif::ProgressStyle::with_template("{spinner} {pos}/{len} {msg}").unwrap());
     let at = 3 + c.at as usize % 40;
     let kinds = [io::ErrorKind::BrokenPipe, io::ErrorKind::WouldBlock, io::ErrorKind::Other, io::ErrorKind::Interrupted, io::ErrorKind::TimedOut];
-    vt.set_fault(Some(FaultPlan { at, mode: if c.mode % 2 == 0 { FaultMode::Once } else { FaultMode::EverySecond }, kind: kinds[c.kind as usize % kinds.len()] }));
+    // (one case in four: an outage - every call fails - that lasts for 300 ticks)
+    let outage = c.mode % 4 == 3;
+    vt.set_fault(Some(FaultPlan { at, mode: if outage { FaultMode::AllLater } else if c.mode % 2 == 0 { FaultMode::Once } else { FaultMode::EverySecond }, kind: kinds[c.kind as usize % kinds.len()] }));
     let interval = Duration::from_millis(1 + c.interval_ms as u64 % 4);
     let r = catch(|| pb.enable_steady_tick(interval));
     r.map_err(|p| Fail::new("panic", format!("enable_steady_tick panicked: {p}")))?;
@@ -374,7 +376,7 @@ fn run_ticker_fault(c: &TickerFault) -> CaseResult {
     ensure!(wait_until(&|| vt.lock().faults_fired > 0), "ticker_never_reached_fault", "{ctx}: the ticker made fewer than {at} terminal calls within 10 s");
     if c.mode % 2 == 1 {
         // let it fail for a while, then the terminal recovers
-        wait_until(&|| vt.lock().faults_fired >= 20);
+        wait_until(&|| vt.lock().faults_fired >= if outage { 300 } else { 20 });
     }
     vt.set_fault(None);
     // the bar keeps working: the ticker goes on redrawing, other calls work and are reflected
@@ -404,6 +406,7 @@ fn run_ticker_fault(c: &TickerFault) -> CaseResult {
     v.label("fault_inside_a_ticker_draw");
     v.label_if(c.in_multi, "inside_multi_progress");
     v.label_if(c.mode % 2 == 1, "repeated_faults_then_recovery");
+    v.label_if(outage, "outage_of_300_ticks");
     Ok(v)
 }
 
@@ -438,7 +441,7 @@ pub fn property() -> Property {
                             // a quarter of the cases start with a bottom-aligned group of 3-4 drawn bars that is then
                             // cleared or shrunk in one draw (several blank rows are written by that single call)
                             if shape < 2 {
-                                let bar = BarSpec { two_lines: false, len: Some(5), on_finish: 0, msg: String::new(), key_nl: false };
+                                let bar = BarSpec { two_lines: false, len: Some(5), on_finish: 0, msg: String::new(), key_nl: false, blank_first: 0 };
                                 let mut pre = vec![MOp::SetAlignment(true)];
                                 let n = 3 + shape as usize;
                                 for k in 0..n {
@@ -464,6 +467,12 @@ pub fn property() -> Property {
                                 let at = pick(pos, multi.ops.len() + 1);
                                 multi.ops.insert(at, MOp::MpPrintln("z".into()));
                                 multi.ops.insert(at, MOp::BarPrintlnUnwinding(sel, "q".into()));
+                            }
+                            // (a hidden phase has no terminal calls that could fail: not part of this check)
+                            for op in &mut multi.ops {
+                                if matches!(op, MOp::HideMp | MOp::ShowMp) {
+                                    *op = MOp::Tick(0);
+                                }
                             }
                             MultiFaultCase { multi, fault }
                         })
@@ -493,12 +502,12 @@ pub fn property() -> Property {
             }),
             Box::new(Gen::<TickerFault> {
                 name: "ticker_fault",
-                rule: "real threads: a steady ticker (1-4 ms) draws on a terminal whose k-th call (k = 3..42) fails once, or every second call 20 times before it recovers; afterwards the ticker must go on redrawing (3 more frames and the state set after the fault on screen within 10 s), inc/set_message/disable_steady_tick/finish/drop must not panic and the getters must be right; non-trivial = every case",
-                strategy: |_| (any::<u8>(), 0u8..5, 0u8..2, 0u8..4, any::<bool>()).prop_map(|(at, kind, mode, interval_ms, in_multi)| TickerFault { at, kind, mode, interval_ms, in_multi }).boxed(),
+                rule: "real threads: a steady ticker (1-4 ms) draws on a terminal whose k-th call (k = 3..42) fails once, or every second call 20 times before it recovers, or every call during 300 ticks; afterwards the ticker must go on redrawing (3 more frames and the state set after the fault on screen within 10 s), inc/set_message/disable_steady_tick/finish/drop must not panic and the getters must be right; non-trivial = every case",
+                strategy: |_| (any::<u8>(), 0u8..5, 0u8..4, 0u8..4, any::<bool>()).prop_map(|(at, kind, mode, interval_ms, in_multi)| TickerFault { at, kind, mode, interval_ms, in_multi }).boxed(),
                 cases: |t| t.pick(12, 600),
                 run: run_ticker_fault,
                 signature: no_signature,
-                essential: &["fault_inside_a_ticker_draw", "inside_multi_progress", "repeated_faults_then_recovery"],
+                essential: &["fault_inside_a_ticker_draw", "inside_multi_progress", "repeated_faults_then_recovery", "outage_of_300_ticks"],
                 workers: 8,
                 decode: None,
             }),
